@@ -13,7 +13,8 @@
 (***************************************************************************)
 EXTENDS Integers, FiniteSets, Sequences, TLC, Json, IOUtils
 
-CONSTANTS W
+CONSTANTS W,
+          Shared, SigCtx   \* unused here (the monitor shares its constant overrides with TraceEnvelope)
 
 TraceLog == ndJsonDeserialize(IOEnv.VERIF_TRACE)
 
